@@ -83,6 +83,9 @@ spec_fn(
         dict(name="bound", noinduct=True,
              stmt="forall(0, N, lambda k: forall(0, S[k], lambda a: forall(0, S[k], lambda b:"
                   " 0 <= c09_blk(S, k, a, b) and c09_blk(S, k, a, b) < c09_blk(S, N, 0, 0), pat=c09_blk(S, k, a, b))))"),
+        # with sub size one everywhere the over-sampled (sub-slim) index is the slim index
+        dict(name="unit", induct="n", lo=0, hi="N",
+             stmt="implies(forall(0, n, lambda j: S[j] == 1), c09_blk(S, n, 0, 0) == n)"),
         # off(n) is the sum of the squared sub sizes (the form np.sum(sub_size ** 2) is linked to)
         dict(name="sum", induct="n", lo=0, hi="N",
              stmt="c09_blk(S, n, 0, 0) == sumto(n, lambda k: S[k] * S[k])"),
@@ -105,8 +108,8 @@ spec_fn("c09_pb", params=[("S", "int[1]"), ("t", "int")], ret="int", let={"N": "
 # sub size of native pixel (y, x): 0 sub-pixels for a masked pixel
 macro("c09_sub", ["M", "S", "y", "x"], "(0 if M[y, x] else S[cnt2(M, y, x)])")
 # centre of sub-interval a (of n equal parts) of a pixel centred on c with side s: counted downwards / rightwards
-macro("c09_ysub", ["c", "s", "a", "n"], "c + s / 2 - (a + 1 / 2) * s / n", py=lambda c, s, a, n: c + s / 2 - (a + 0.5) * s / n)
-macro("c09_xsub", ["c", "s", "b", "n"], "c - s / 2 + (b + 1 / 2) * s / n", py=lambda c, s, b, n: c - s / 2 + (b + 0.5) * s / n)
+macro("c09_ysub", ["c", "s", "a", "n"], "c + s / 2 - (a + 1 / 2) * (s / n)", py=lambda c, s, a, n: c + s / 2 - (a + 0.5) * s / n)
+macro("c09_xsub", ["c", "s", "b", "n"], "c - s / 2 + (b + 1 / 2) * (s / n)", py=lambda c, s, b, n: c - s / 2 + (b + 0.5) * s / n)
 
 HW = {"H": "mask_2d.shape[0]", "W": "mask_2d.shape[1]", "S": "sub_size", "N": "sub_size.shape[0]", "M": "mask_2d"}
 _IDX = "c09_blk(S, cnt2(M, y, x), a, b)"
@@ -156,17 +159,89 @@ contract(
     sentence={"forall": "sub-pixels are ordered pixel by pixel (slim order) then top-to-bottom, left-to-right"},
 )
 
+_nat_loops = _walk("slim_index", "sub_slim_index",
+                   "forall(0, sub_slim_index, lambda t:"
+                   " sub_native_index_for_sub_slim_index_2d[t, 0] == pixy(M, c09_pk(S, t)) * S[c09_pk(S, t)] + c09_pa(S, t)"
+                   " and sub_native_index_for_sub_slim_index_2d[t, 1] == pixx(M, c09_pk(S, t)) * S[c09_pk(S, t)] + c09_pb(S, t))")
+_nat_loops[3]["assert_at"] = {0: [
+    "c09_pk(S, sub_slim_index) == slim_index and c09_pa(S, sub_slim_index) == y1 and c09_pb(S, sub_slim_index) == x1",
+    "pixy(M, slim_index) == y and pixx(M, slim_index) == x"]}
+contract(
+    U + "native_sub_index_for_slim_sub_index_2d_from", props=["C09"],
+    types={"mask_2d": "bool[2]", "sub_size": "int[1]"}, returns="real[2]", let=HW,
+    requires=_REQ_TBL,
+    ensures=[
+        "result.shape[0] == c09_off(S, N)", "result.shape[1] == 2",
+        # sub-pixel (a, b) of native pixel (y, x) is entry (y*sub + a, x*sub + b) of the over-sampled frame
+        _subpix("result[" + _IDX + ", 0] == y * S[cnt2(M, y, x)] + a and result[" + _IDX + ", 1] == x * S[cnt2(M, y, x)] + b"),
+        _subpix(_CLOSED),
+    ],
+    loops=_nat_loops,
+    sentence={"forall": "sub-pixels are ordered pixel by pixel (slim order) then top-to-bottom, left-to-right"},
+)
+
+contract(
+    U + "sub_slim_index_for_sub_native_index_from", props=["C09"],
+    types={"sub_mask_2d": "bool[2]"}, returns="real[2]",
+    let={"M": "sub_mask_2d", "H": "sub_mask_2d.shape[0]", "W": "sub_mask_2d.shape[1]"},
+    ensures=["result.shape[0] == H", "result.shape[1] == W",
+             # every unmasked entry holds its rank in row-major order, every masked entry -1
+             "forall(0, H, lambda y: forall(0, W, lambda x: result[y, x] == (-1 if M[y, x] else cnt2(M, y, x))))"],
+    loops={0: {"inv": ["sub_mask_1d_index == cnt2(M, sub_mask_y, 0)",
+                       "forall(0, sub_mask_y, lambda y: forall(0, W, lambda x: sub_slim_index_for_sub_native_index[y, x] == (-1 if M[y, x] else cnt2(M, y, x))))",
+                       "forall(sub_mask_y, H, lambda y: forall(0, W, lambda x: sub_slim_index_for_sub_native_index[y, x] == -1))"]},
+           1: {"inv": ["sub_mask_1d_index == cnt2(M, sub_mask_y, sub_mask_x)",
+                       "forall(0, sub_mask_y, lambda y: forall(0, W, lambda x: sub_slim_index_for_sub_native_index[y, x] == (-1 if M[y, x] else cnt2(M, y, x))))",
+                       "forall(sub_mask_y + 1, H, lambda y: forall(0, W, lambda x: sub_slim_index_for_sub_native_index[y, x] == -1))",
+                       "forall(0, sub_mask_x, lambda x: sub_slim_index_for_sub_native_index[sub_mask_y, x] == (-1 if M[sub_mask_y, x] else cnt2(M, sub_mask_y, x)))",
+                       "forall(sub_mask_x, W, lambda x: sub_slim_index_for_sub_native_index[sub_mask_y, x] == -1)"]}},
+    sentence={"forall": "the native-to-slim table of the over-sampled mask holds the row-major rank of every unmasked entry and -1 elsewhere"},
+)
+
+
 # ----------------------------------------------------------------------------------------------- over-sampled grid
 GEO = {**HW, "sy": "pixel_scales[0]", "sx": "pixel_scales[1]", "oy": "origin[0]", "ox": "origin[1]"}
 _REQ_SUB = ["N == total(M)", "forall(0, N, lambda k: S[k] >= 1)"]
 
-_GRID_DONE = ("forall(0, sub_index, lambda t:"
-              " grid_slim[t, 0] == c09_ysub(cy(pixy(M, c09_pk(S, t)), H, sy, oy), sy, c09_pa(S, t), S[c09_pk(S, t)])"
-              " and grid_slim[t, 1] == c09_xsub(cx(pixx(M, c09_pk(S, t)), W, sx, ox), sx, c09_pb(S, t), S[c09_pk(S, t)]))")
+# coordinates of sub-row a / sub-column b of slim pixel k, as functions of the integers only: the quantified invariants then
+# need congruence alone, the (non-linear) formula is unfolded once per ground term
+def _suby_py(M, S, sy, oy, k, a):
+    n = int(S[k]) if 0 <= k < len(S) else 0
+    return 0.0 if n == 0 else float(oy + ((M.shape[0] - 1) / 2 - _pix_py(M, k, 0)) * sy + sy / 2 - (a + 0.5) * (sy / n))
+
+
+def _subx_py(M, S, sx, ox, k, b):
+    n = int(S[k]) if 0 <= k < len(S) else 0
+    return 0.0 if n == 0 else float(ox + (_pix_py(M, k, 1) - (M.shape[1] - 1) / 2) * sx - sx / 2 + (b + 0.5) * (sx / n))
+
+
+def _pix_py(M, k, c):
+    idx = np.argwhere(~np.asarray(M, dtype=bool))
+    return int(idx[k][c]) if 0 <= k < len(idx) else -1
+
+
+spec_fn("c09_suby", params=[("M", "bool[2]"), ("S", "int[1]"), ("sy", "$real"), ("oy", "$real"), ("k", "int"), ("a", "int")],
+        ret="real", let={"H": "M.shape[0]", "N": "S.shape[0]"},
+        axioms=["forall(0, N, lambda k: forall(0, S[k], lambda a: c09_suby(M, S, sy, oy, k, a)"
+                " == c09_ysub(cy(pixy(M, k), H, sy, oy), sy, a, S[k]), pat=c09_suby(M, S, sy, oy, k, a)))"],
+        py=_suby_py, doc="y of the centre of sub-row a of slim pixel k (a counted from the top)")
+spec_fn("c09_subx", params=[("M", "bool[2]"), ("S", "int[1]"), ("sx", "$real"), ("ox", "$real"), ("k", "int"), ("b", "int")],
+        ret="real", let={"W": "M.shape[1]", "N": "S.shape[0]"},
+        axioms=["forall(0, N, lambda k: forall(0, S[k], lambda b: c09_subx(M, S, sx, ox, k, b)"
+                " == c09_xsub(cx(pixx(M, k), W, sx, ox), sx, b, S[k]), pat=c09_subx(M, S, sx, ox, k, b)))"],
+        py=_subx_py, doc="x of the centre of sub-column b of slim pixel k (b counted from the left)")
+
+_GRID_DONE = ("forall(0, sub_index, lambda t: grid_slim[t, 0] == c09_suby(M, S, sy, oy, c09_pk(S, t), c09_pa(S, t))"
+              " and grid_slim[t, 1] == c09_subx(M, S, sx, ox, c09_pk(S, t), c09_pb(S, t)))")
 _grid_loops = _walk("index", "sub_index", _GRID_DONE)
 _grid_loops[3]["assert_at"] = {0: [
-    "-(y_scaled - y_sub_half + y1 * y_sub_step + y_sub_step / 2.0) == c09_ysub(cy(y, H, sy, oy), sy, y1, sub)",
-    "x_scaled - x_sub_half + x1 * x_sub_step + x_sub_step / 2.0 == c09_xsub(cx(x, W, sx, ox), sx, x1, sub)",
+    "y_scaled == -cy(y, H, sy, oy)", "x_scaled == cx(x, W, sx, ox)",
+    "c09_pk(S, sub_index) == index and c09_pa(S, sub_index) == y1 and c09_pb(S, sub_index) == x1",
+    "pixy(M, index) == y and pixx(M, index) == x",
+    "c09_suby(M, S, sy, oy, index, y1) == c09_ysub(cy(y, H, sy, oy), sy, y1, sub)",
+    "c09_subx(M, S, sx, ox, index, x1) == c09_xsub(cx(x, W, sx, ox), sx, x1, sub)",
+    "-(y_scaled - y_sub_half + y1 * y_sub_step + y_sub_step / 2.0) == c09_suby(M, S, sy, oy, index, y1)",
+    "x_scaled - x_sub_half + x1 * x_sub_step + x_sub_step / 2.0 == c09_subx(M, S, sx, ox, index, x1)",
 ]}
 
 contract(
@@ -179,11 +254,351 @@ contract(
         "result.shape[0] == c09_off(S, N)", "result.shape[0] == sumto(N, lambda k: S[k] ** 2)", "result.shape[1] == 2",
         # ... at the centres of a uniform sub x sub partition of that pixel, ordered pixel by pixel (slim order) then
         # top-to-bottom, left-to-right
-        _subpix("result[" + _IDX + ", 0] == cy(y, H, sy, oy) + sy / 2 - (a + 1 / 2) * sy / S[cnt2(M, y, x)]"
-                " and result[" + _IDX + ", 1] == cx(x, W, sx, ox) - sx / 2 + (b + 1 / 2) * sx / S[cnt2(M, y, x)]"
-                " and " + _CLOSED),
+        _subpix("result[" + _IDX + ", 0] == cy(y, H, sy, oy) + sy / 2 - (a + 1 / 2) * (sy / S[cnt2(M, y, x)])"),
+        _subpix("result[" + _IDX + ", 1] == cx(x, W, sx, ox) - sx / 2 + (b + 1 / 2) * (sx / S[cnt2(M, y, x)])"),
+        _subpix(_CLOSED),
     ],
     loops=_grid_loops,
     sentence={"forall": "the over-sampled grid holds sub_size^2 points per unmasked pixel at the centres of a uniform sub x sub "
                         "partition of that pixel, ordered pixel by pixel (slim order) then top-to-bottom, left-to-right"},
 )
+
+
+# ----------------------------------------------------------------------------------------------- binning
+# sum of the sub-values of pixel k: rows a (top to bottom), inside a row columns b (left to right), at the very indices
+# c09_blk(S, k, a, b) == off(k) + a*S[k] + b at which the over-sampled grid holds the sub-pixel centres of pixel k
+_FR = "(1 / (S[%s] * S[%s]))"                       # the code's sub_fraction[k]
+
+
+def _row(k, a, n, scaled=False):
+    return "sumto(%s, lambda b: A[c09_blk(S, %s, %s, b)]%s)" % (n, k, a, (" * " + _FR % (k, k)) if scaled else "")
+
+
+def _rows(k, n, scaled=False):
+    return "sumto(%s, lambda a: %s)" % (n, _row(k, "a", "S[%s]" % k, scaled))
+
+
+_MEAN = _rows("k", "S[k]") + " / (S[k] * S[k])"
+_C0 = "A[c09_blk(S, %s, 0, 0)]"
+_ALLEQ = "forall(0, %s, lambda a: forall(0, S[%s], lambda b: A[c09_blk(S, %s, a, b)] == " + _C0 + "))"
+_G = "A.shape[0] >= c09_blk(S, N, 0, 0)"           # the over-sampled array holds every block (guards the array reads)
+
+
+def _mean_py(A, S, k):
+    n = int(S[k]) if 0 <= k < len(S) else 0
+    o = _off_py(S, k)
+    if n <= 0 or o + n * n > len(A):
+        return 0.0
+    return float(sum(float(A[o + j]) for j in range(n * n)) / (n * n))
+
+
+spec_fn(
+    "c09_mean", params=[("A", "real[1]"), ("S", "int[1]"), ("k", "int")], ret="real", let={"N": "S.shape[0]"},
+    axioms=["forall(0, N, lambda k: implies(" + _G + " and S[k] >= 1, c09_mean(A, S, k) == " + _MEAN + "), pat=c09_mean(A, S, k))"],
+    lemmas=[
+        # sum_j (x_j * f) == (sum_j x_j) * f : inside a row, then over the rows (the loops accumulate x_j * sub_fraction)
+        dict(name="row_scaled", induct="n", lo=0, hi="c09_smax(S)", export=False,
+             stmt="forall(0, N, lambda k: forall(0, S[k], lambda a: implies(" + _G + " and n <= S[k], "
+                  + _row("k", "a", "n", True) + " == " + _row("k", "a", "n") + " * " + _FR % ("k", "k") + "),"
+                  " pat=" + _row("k", "a", "n", True) + "))"),
+        dict(name="rows_scaled", induct="n", lo=0, hi="c09_smax(S)", export=False,
+             stmt="forall(0, N, lambda k: implies(" + _G + " and S[k] >= 1 and n <= S[k], "
+                  + _rows("k", "n", True) + " == " + _rows("k", "n") + " * " + _FR % ("k", "k") + "),"
+                  " pat=" + _rows("k", "n", True) + ")"),
+        dict(name="scaled_is_mean", noinduct=True,
+             stmt="forall(0, N, lambda k: implies(" + _G + " and S[k] >= 1, " + _rows("k", "S[k]", True) + " == c09_mean(A, S, k)),"
+                  " pat=" + _rows("k", "S[k]", True) + ")"),
+        # a pixel whose sub-values are all equal: the sums are multiples of that value, the mean is that value
+        dict(name="row_const", induct="n", lo=0, hi="c09_smax(S)", export=False,
+             stmt="forall(0, N, lambda k: forall(0, S[k], lambda a: implies(" + _G + " and n <= S[k]"
+                  " and forall(0, n, lambda b: A[c09_blk(S, k, a, b)] == " + _C0 % "k" + "), "
+                  + _row("k", "a", "n") + " == n * " + _C0 % "k" + "), pat=" + _row("k", "a", "n") + "))"),
+        dict(name="rows_const", induct="n", lo=0, hi="c09_smax(S)", export=False,
+             stmt="forall(0, N, lambda k: implies(" + _G + " and S[k] >= 1 and n <= S[k] and " + _ALLEQ % ("n", "k", "k", "k") + ", "
+                  + _rows("k", "n") + " == (n * S[k]) * " + _C0 % "k" + "), pat=" + _rows("k", "n") + ")"),
+        dict(name="const", noinduct=True,
+             stmt="forall(0, N, lambda k: implies(" + _G + " and S[k] >= 1 and " + _ALLEQ % ("S[k]", "k", "k", "k") + ","
+                  " c09_mean(A, S, k) == " + _C0 % "k" + "), pat=c09_mean(A, S, k))"),
+    ],
+    py=_mean_py, doc="arithmetic mean of the S[k]^2 sub-values of slim pixel k",
+)
+
+_BIN_DONE = "forall(0, index, lambda k: binned_array_2d_slim[k] == c09_mean(A, S, k))"
+_bin_loops = {
+    0: {"inv": ["index == cnt2(M, y, 0)", "sub_index == c09_off(S, index)", _BIN_DONE,
+                "forall(index, N, lambda k: binned_array_2d_slim[k] == 0)"]},
+    1: {"inv": ["index == cnt2(M, y, x)", "sub_index == c09_off(S, index)", _BIN_DONE,
+                "forall(index, N, lambda k: binned_array_2d_slim[k] == 0)"]},
+    2: {"inv": ["sub_index == c09_blk(S, index, y1, 0)", _BIN_DONE,
+                "forall(index + 1, N, lambda k: binned_array_2d_slim[k] == 0)",
+                "binned_array_2d_slim[index] == " + _rows("index", "y1", True)]},
+    3: {"inv": ["sub_index == c09_blk(S, index, y1, x1)", _BIN_DONE,
+                "forall(index + 1, N, lambda k: binned_array_2d_slim[k] == 0)",
+                "binned_array_2d_slim[index] == " + _rows("index", "y1", True) + " + " + _row("index", "y1", "x1", True)],
+        "assert_at": {0: ["sub_fraction[index] == " + _FR % ("index", "index")]}},
+}
+
+contract(
+    U + "binned_array_2d_from", props=["C09"],
+    types={"array_2d": "real[1]", "mask_2d": "bool[2]", "sub_size": "int[1]"}, returns="real[1]",
+    let={**HW, "A": "array_2d"},
+    requires=_REQ_SUB + ["A.shape[0] == c09_off(S, N)"],
+    ensures=[
+        "result.shape[0] == total(M)",
+        # binning returns for each pixel the arithmetic mean of its own sub-values
+        "forall(0, N, lambda k: result[k] == " + _MEAN + ")",
+        # ... so a pixel whose sub-values are all equal gets exactly that value (constants are reproduced exactly)
+        "forall(0, N, lambda k: implies(" + _ALLEQ % ("S[k]", "k", "k", "k") + ", result[k] == A[c09_off(S, k)]))",
+    ],
+    loops=_bin_loops,
+    sentence={"sumto": "binning over-sampled values returns for each pixel the arithmetic mean of its own sub-values",
+              "implies": "constants are reproduced exactly"},
+)
+
+
+# ----------------------------------------------------------------------------------------------- iterative scheme kernels
+# agreement of a level with the previous one: ratio of the smaller to the larger value, defined only when the previous
+# (lower sub-size) value l is positive -- otherwise no agreement (0)
+macro("c09_agree", ["l", "h"], "((min(l, h) / max(l, h)) if l > 0 else 0)",
+      py=lambda l, h: (min(l, h) / max(l, h)) if l > 0 else 0.0)
+# a pixel is NOT yet accurate: the agreement misses the fractional accuracy or, if set, the absolute difference exceeds the tolerance
+macro("c09_inacc_f", ["l", "h", "fa"], "(fa is not None and c09_agree(l, h) < fa)")
+macro("c09_inacc_r", ["l", "h", "ra"], "(ra is not None and abs(l - h) > ra)")
+
+_TM = {"T": "threshold_mask", "Hh": "array_higher_sub_2d", "L": "array_lower_sub_2d", "HM": "array_higher_mask",
+       "fa": "fractional_accuracy_threshold", "ra": "relative_accuracy_threshold",
+       "H": "threshold_mask.shape[0]", "W": "threshold_mask.shape[1]"}
+_FF = "(not HM[{y}, {x}] and c09_inacc_f(L[{y}, {x}], Hh[{y}, {x}], fa))"
+_RF = "(not HM[{y}, {x}] and c09_inacc_r(L[{y}, {x}], Hh[{y}, {x}], ra))"
+_AFTER_F = "T[{y}, {x}] == (old(T)[{y}, {x}] and not " + _FF + ")"
+_AFTER_R = "T[{y}, {x}] == (old(T)[{y}, {x}] and not " + _FF + " and not " + _RF + ")"
+_STONE_F = ("implies(L[y, x] > 0 and Hh[y, x] != 0 and fa >= 0, ((L[y, x] / Hh[y, x] if L[y, x] / Hh[y, x] <= 1.0"
+            " else 1.0 / (L[y, x] / Hh[y, x])) < fa) == (min(L[y, x], Hh[y, x]) / max(L[y, x], Hh[y, x]) < fa))")
+
+
+def _all(body, ylo="0", yhi="H", xlo="0", xhi="W", y="yy", x="xx"):
+    return "forall(%s, %s, lambda %s: forall(%s, %s, lambda %s: %s))" % (ylo, yhi, y, xlo, xhi, x, body.format(y=y, x=x))
+
+
+_UNT = "T[{y}, {x}] == old(T)[{y}, {x}]"
+contract(
+    IT + "threshold_mask_via_arrays_jit_from", props=["C09"],
+    types={"fractional_accuracy_threshold": "real", "relative_accuracy_threshold": "real", "threshold_mask": "bool[2]",
+           "array_higher_sub_2d": "real[2]", "array_lower_sub_2d": "real[2]", "array_higher_mask": "bool[2]"},
+    returns="bool[2]", result_alias="threshold_mask", modifies=["threshold_mask"], let=_TM,
+    requires=["Hh.shape[0] == H and Hh.shape[1] == W and L.shape[0] == H and L.shape[1] == W and HM.shape[0] == H and HM.shape[1] == W",
+              "fa is None or fa >= 0",
+              # R1 (exact reals) has no inf: the kernel divides l / h whenever l > 0 (IEEE gives inf -> agreement 0 there;
+              # those inputs are left to the bounded check C09:iterate-stopping-rule)
+              _all("implies(fa is not None and not HM[{y}, {x}] and L[{y}, {x}] > 0, Hh[{y}, {x}] != 0)")],
+    ensures=["result.shape[0] == H and result.shape[1] == W",
+             # a pixel stays 'still to be refined' (False) exactly if it already was, or its agreement with the previous level
+             # (ratio smaller/larger, only for a positive previous value) misses the fractional accuracy, or (if set) the
+             # absolute difference exceeds the tolerance
+             _all("result[{y}, {x}] == (old(threshold_mask)[{y}, {x}] and not " + _FF + " and not " + _RF + ")")],
+    loops={
+        0: {"inv": [_all(_AFTER_F, yhi="y"), _all(_UNT, ylo="y")]},
+        1: {"inv": [_all(_AFTER_F, yhi="y"), _all(_UNT, ylo="y + 1"),
+                    "forall(0, x, lambda xx: " + _AFTER_F.format(y="y", x="xx") + ")",
+                    "forall(x, W, lambda xx: " + _UNT.format(y="y", x="xx") + ")"],
+            "assert_at": {0: [_STONE_F]}},
+        2: {"inv": [_all(_AFTER_R, yhi="y"), _all(_AFTER_F, ylo="y")]},
+        3: {"inv": [_all(_AFTER_R, yhi="y"), _all(_AFTER_F, ylo="y + 1"),
+                    "forall(0, x, lambda xx: " + _AFTER_R.format(y="y", x="xx") + ")",
+                    "forall(x, W, lambda xx: " + _AFTER_F.format(y="y", x="xx") + ")"]},
+    },
+    sentence={"forall": "agreement with the previous level = ratio of the smaller to the larger value, defined only when the previous "
+                        "value is positive, must meet the fractional accuracy and, if set, the absolute-difference tolerance"},
+)
+
+contract(
+    IT + "iterated_array_jit_from", props=["C09"],
+    types={"iterated_array": "real[2]", "threshold_mask_higher_sub": "bool[2]", "threshold_mask_lower_sub": "bool[2]",
+           "array_higher_sub_2d": "real[2]"},
+    returns="real[2]", result_alias="iterated_array", modifies=["iterated_array"],
+    let={"R": "iterated_array", "TH": "threshold_mask_higher_sub", "TL": "threshold_mask_lower_sub", "V": "array_higher_sub_2d",
+         "H": "iterated_array.shape[0]", "W": "iterated_array.shape[1]"},
+    requires=["TH.shape[0] == H and TH.shape[1] == W and TL.shape[0] == H and TL.shape[1] == W and V.shape[0] == H and V.shape[1] == W"],
+    ensures=["result.shape[0] == H and result.shape[1] == W",
+             # a pixel that became accurate at this level (not before) takes this level's binned value; all others are untouched
+             "forall(0, H, lambda y: forall(0, W, lambda x: result[y, x] =="
+             " (V[y, x] if (TH[y, x] and not TL[y, x]) else old(iterated_array)[y, x])))"],
+    loops={
+        0: {"inv": ["forall(0, y, lambda yy: forall(0, W, lambda xx: R[yy, xx] == (V[yy, xx] if (TH[yy, xx] and not TL[yy, xx]) else old(R)[yy, xx])))",
+                    "forall(y, H, lambda yy: forall(0, W, lambda xx: R[yy, xx] == old(R)[yy, xx]))"]},
+        1: {"inv": ["forall(0, y, lambda yy: forall(0, W, lambda xx: R[yy, xx] == (V[yy, xx] if (TH[yy, xx] and not TL[yy, xx]) else old(R)[yy, xx])))",
+                    "forall(y + 1, H, lambda yy: forall(0, W, lambda xx: R[yy, xx] == old(R)[yy, xx]))",
+                    "forall(0, x, lambda xx: R[y, xx] == (V[y, xx] if (TH[y, xx] and not TL[y, xx]) else old(R)[y, xx]))",
+                    "forall(x, W, lambda xx: R[y, xx] == old(R)[y, xx])"]},
+    },
+    sentence={"forall": "the iterative scheme returns for each pixel the binned value at the first sub-size whose agreement meets the accuracy"},
+)
+
+
+# ----------------------------------------------------------------------------------------------- radial bins
+def _bin_spec(arr, i):
+    """entry i holds the sub size of the FIRST radial bin whose edge exceeds its radius, else the last sub size"""
+    return ("forall(0, m, lambda j: implies(R[{i}] < RL[j] and forall(0, j, lambda jj: not R[{i}] < RL[jj]), {a}[{i}] == SL[j]))"
+            " and implies(forall(0, m, lambda j: not R[{i}] < RL[j]), {a}[{i}] == SL[SL.shape[0] - 1])").format(a=arr, i=i)
+
+
+contract(
+    U + "sub_size_radial_bins_from", props=["C09"],
+    types={"radial_grid": "real[1]", "sub_size_list": "int[1]", "radial_list": "real[1]"}, returns="real[1]",
+    let={"R": "radial_grid", "SL": "sub_size_list", "RL": "radial_list", "n": "radial_grid.shape[0]", "m": "radial_list.shape[0]"},
+    requires=["SL.shape[0] >= 1", "m <= SL.shape[0]"],
+    ensures=["result.shape[0] == n", "forall(0, n, lambda i: " + _bin_spec("result", "i") + ")"],
+    loops={
+        0: {"inv": ["forall(0, i, lambda ii: " + _bin_spec("sub_size", "ii") + ")",
+                    "forall(i, n, lambda ii: sub_size[ii] == SL[SL.shape[0] - 1])"]},
+        1: {"inv": ["forall(0, i, lambda ii: " + _bin_spec("sub_size", "ii") + ")",
+                    "forall(i, n, lambda ii: sub_size[ii] == SL[SL.shape[0] - 1])",
+                    "forall(0, j, lambda jj: not radial_grid[i] < RL[jj])"]},
+    },
+    sentence={"forall": "per-pixel sub-size map from radial bins: the sub size of the first bin whose edge exceeds the pixel's radius"},
+)
+
+
+# ----------------------------------------------------------------------------------------------- corollaries
+_COR_VARS = {"A": "real[1]", "M": "bool[2]", "S": "int[1]"}
+_COR_REQ = ["N == total(M)", "A.shape[0] == c09_off(S, N)"]
+corollary("C09.bin_constant", props=["C09"], vars={**_COR_VARS, "c": "real"}, let={"N": "S.shape[0]"},
+          requires=_COR_REQ + ["forall(0, N, lambda k: S[k] >= 1)", "forall(0, A.shape[0], lambda t: A[t] == c)"],
+          calls=[("B", U + "binned_array_2d_from", {"array_2d": "A", "mask_2d": "M", "sub_size": "S"})],
+          ensures=["B.shape[0] == total(M)", "forall(0, N, lambda k: B[k] == c)"],
+          sentence="constants are reproduced exactly by binning (every sub-size map)")
+corollary("C09.bin_sub1_identity", props=["C09"], vars=_COR_VARS, let={"N": "S.shape[0]"},
+          requires=_COR_REQ + ["forall(0, N, lambda k: S[k] == 1)"],
+          calls=[("B", U + "binned_array_2d_from", {"array_2d": "A", "mask_2d": "M", "sub_size": "S"})],
+          ensures=["A.shape[0] == N", "forall(0, N, lambda k: B[k] == A[k])"],
+          sentence="with sub-size one binning is the identity (the plain evaluation)")
+corollary("C09.grid_sub1_is_plain_grid", props=["C09", "C02"],
+          vars={"M": "bool[2]", "S": "int[1]", "ps": "(real,real)", "o": "(real,real)"},
+          let={"N": "S.shape[0]", "H": "M.shape[0]", "W": "M.shape[1]"},
+          requires=["N == total(M)", "forall(0, N, lambda k: S[k] == 1)", "ps[0] != 0", "ps[1] != 0"],
+          calls=[("G", U + "grid_2d_slim_over_sampled_via_mask_from", {"mask_2d": "M", "pixel_scales": "ps", "sub_size": "S", "origin": "o"}),
+                 ("P", "autoarray.structures.grids.grid_2d_util:grid_2d_slim_via_mask_from", {"mask_2d": "M", "pixel_scales": "ps", "origin": "o"})],
+          ensures=["G.shape[0] == P.shape[0]",
+                   "forall(0, H, lambda y: forall(0, W, lambda x: implies(not M[y, x],"
+                   " c09_off(S, cnt2(M, y, x)) == cnt2(M, y, x) and G[c09_off(S, cnt2(M, y, x)), 0] == P[cnt2(M, y, x), 0]"
+                   " and G[c09_off(S, cnt2(M, y, x)), 1] == P[cnt2(M, y, x), 1])))"],
+          sentence="with sub-size one the over-sampled grid is the grid of pixel centres")
+
+
+# ----------------------------------------------------------------------------------------------- engine C generators
+import itertools
+
+
+def _mask_sub(rng, tier, smin=1):
+    """(mask, per-pixel sub-size map): exhaustive on tiny masks with sub sizes {smin..3}, then random up to 5x5 with 1..8"""
+    for m in gens.all_masks(gens.budget(tier, 4, 5)):
+        n = int((~m).sum())
+        for subs in itertools.product(range(smin, 4), repeat=n):
+            yield m, np.array(subs, dtype=int)
+    for _ in range(gens.budget(tier, 60, 600)):
+        m = gens.random_mask(rng, 5, 5)
+        n = int((~m).sum())
+        hi = rng.choice([2, 3, 4, 8])
+        yield m, np.array([rng.randint(smin, hi) for _ in range(n)], dtype=int)
+
+
+def _g_total(rng, tier):
+    for n in range(0, 5):
+        for subs in itertools.product(range(0, 4), repeat=n):
+            yield {"sub_size": np.array(subs, dtype=int)}
+    for _ in range(gens.budget(tier, 50, 500)):
+        yield {"sub_size": np.array([rng.randint(1, 8) for _ in range(rng.randint(0, 12))], dtype=int)}
+
+
+def _g_tbl(rng, tier):
+    for m, s in _mask_sub(rng, tier, smin=0):
+        yield {"mask_2d": m, "sub_size": s}
+
+
+def _g_grid(rng, tier):
+    for m, s in _mask_sub(rng, tier):
+        yield {"mask_2d": m, "pixel_scales": (rng.choice([0.5, 1.0, 2.0, 0.1, 3.7]), rng.choice([0.5, 1.0, 2.0, 1.3])),
+               "sub_size": s, "origin": (rng.choice([0.0, 1.5, -2.25]), rng.choice([0.0, -0.75, 3.0]))}
+
+
+_nt_sub = lambda mask_2d, sub_size, **kw: bool(0 < mask_2d.sum() < mask_2d.size and len(set(sub_size.tolist())) > 1)
+CONTRACTS[U + "total_sub_pixels_2d_from"].gen = _g_total
+CONTRACTS[U + "slim_index_for_sub_slim_index_via_mask_2d_from"].gen = _g_tbl
+CONTRACTS[U + "slim_index_for_sub_slim_index_via_mask_2d_from"].nontrivial = _nt_sub
+CONTRACTS[U + "grid_2d_slim_over_sampled_via_mask_from"].gen = _g_grid
+CONTRACTS[U + "grid_2d_slim_over_sampled_via_mask_from"].nontrivial = _nt_sub
+
+
+def _g_bin(rng, tier):
+    for m, sb in _mask_sub(rng, tier):
+        n = int((sb * sb).sum())
+        r = rng.random()
+        if r < 0.15:
+            a = np.full(n, rng.choice([0.0, 1.0, -2.5, 7.25]))
+        else:
+            a = gens.reals(rng, (n,), special=False)      # (no +-1e8 specials: cancellation would exceed the float tolerance)
+            a[[i for i in range(n) if rng.random() < 0.1]] = 0.0
+            if r < 0.4:                     # piecewise constant: one value per pixel
+                a = np.repeat(gens.reals(rng, (len(sb),), special=False), sb * sb) if len(sb) else a
+        yield {"array_2d": a, "mask_2d": m, "sub_size": sb}
+
+
+CONTRACTS[U + "binned_array_2d_from"].gen = _g_bin
+CONTRACTS[U + "binned_array_2d_from"].nontrivial = _nt_sub
+
+
+CONTRACTS[U + "native_sub_index_for_slim_sub_index_2d_from"].gen = _g_tbl
+CONTRACTS[U + "native_sub_index_for_slim_sub_index_2d_from"].nontrivial = _nt_sub
+
+
+def _g_submask(rng, tier):
+    for m in gens.all_masks(gens.budget(tier, 9, 12)):
+        yield {"sub_mask_2d": m}
+    for _ in range(gens.budget(tier, 40, 400)):
+        yield {"sub_mask_2d": gens.random_mask(rng, 8, 8)}
+
+
+CONTRACTS[U + "sub_slim_index_for_sub_native_index_from"].gen = _g_submask
+CONTRACTS[U + "sub_slim_index_for_sub_native_index_from"].nontrivial = lambda sub_mask_2d: bool(0 < sub_mask_2d.sum() < sub_mask_2d.size)
+
+
+_MULT = [1.0, 0.99995, 0.995, 1.005, 1.00005, 0.5, 2.0, -1.0]      # never exactly a threshold: no floating-point ties
+
+
+def _g_thr(rng, tier):
+    for _ in range(gens.budget(tier, 400, 4000)):
+        H, W = rng.randint(1, 4), rng.randint(1, 4)
+        lo = gens.reals(rng, (H, W), -3, 3, special=False)
+        hi = lo * np.array([[rng.choice(_MULT) for _ in range(W)] for _ in range(H)])
+        for a in (lo, hi):
+            a[np.array([[rng.random() < 0.15 for _ in range(W)] for _ in range(H)])] = 0.0
+        yield {"fractional_accuracy_threshold": rng.choice([0.9999, 0.99, 0.6, 1.0, 0.0, None]),
+               "relative_accuracy_threshold": rng.choice([None, None, 0.001, 0.05, 1.0]),
+               "threshold_mask": np.array([[rng.random() < 0.7 for _ in range(W)] for _ in range(H)]),
+               "array_higher_sub_2d": hi, "array_lower_sub_2d": lo,
+               "array_higher_mask": np.array([[rng.random() < 0.3 for _ in range(W)] for _ in range(H)])}
+
+
+def _g_iter(rng, tier):
+    for _ in range(gens.budget(tier, 300, 3000)):
+        H, W = rng.randint(1, 4), rng.randint(1, 4)
+        b = lambda p: np.array([[rng.random() < p for _ in range(W)] for _ in range(H)])
+        yield {"iterated_array": gens.reals(rng, (H, W)), "threshold_mask_higher_sub": b(0.5), "threshold_mask_lower_sub": b(0.5),
+               "array_higher_sub_2d": gens.reals(rng, (H, W))}
+
+
+CONTRACTS[IT + "threshold_mask_via_arrays_jit_from"].gen = _g_thr
+CONTRACTS[IT + "iterated_array_jit_from"].gen = _g_iter
+
+
+def _g_radial(rng, tier):
+    for _ in range(gens.budget(tier, 300, 3000)):
+        m = rng.randint(0, 4)
+        L = m + rng.randint(0 if m else 1, 2)
+        rl = sorted(rng.uniform(0.1, 3.0) for _ in range(m)) if rng.random() < 0.7 else [rng.uniform(0.1, 3.0) for _ in range(m)]
+        yield {"radial_grid": np.array([rng.uniform(0, 3.5) for _ in range(rng.randint(0, 6))]),
+               "sub_size_list": np.array([rng.choice([1, 2, 4, 8, 16, 32]) for _ in range(L)], dtype=int),
+               "radial_list": np.array(rl, dtype=float)}
+
+
+CONTRACTS[U + "sub_size_radial_bins_from"].gen = _g_radial
